@@ -1,8 +1,210 @@
-(* Props/C01.v -- property C01: packets survive the wire. Statements only.
-   (the per-packet round-trip and layout theorems are appended below as they are proved) *)
+(* Props/C01.v -- property C01: packets survive the wire -- encode/decode round trip in the MQTT byte layout (v3 and v5), an independent spec decoder recovers the same fields, properties in any legal order decode to the same values.
+   Statements only: each theorem is closed by `exact <lemma>`; the statement text is the lemma's type as
+   printed by Coq (assembled by tools/mkprops.py from tools/props_spec/C01.json). *)
+From MV Require Import Base.Prelude.
+From MV Require Import Base.Res.
+From MV Require Import Base.VarInt.
+From MV Require Import Proofs.VarIntProofs.
+From MV Require Import Gen.Consts.
+From MV Require Import Spec.SpecConsts.
+From MV Require Import Proofs.ConstsProofs.
+From MV Require Import Proofs.ModelConsts.
+From MV Require Import Base.Utf8.
+From MV Require Import Model.CodecV3.
+From MV Require Import Spec.SpecV3.
+From MV Require Import Proofs.CodecV3Lib.
+From MV Require Import Proofs.CodecV3Enc.
+From MV Require Import Proofs.CodecV3Dec.
+From MV Require Import Proofs.CodecV3RT.
+From MV Require Import Proofs.CodecV3Mal.
+From MV Require Import Proofs.CodecV3Stable.
+From MV Require Import Proofs.CodecV3Layout.
+From MV Require Import Proofs.CodecV3Frag.
+From MV Require Import Proofs.CodecV3Sem.
+From MV Require Import Proofs.CodecV3FragInd.
+From MV Require Import Model.CodecV5.
+From MV Require Import Model.Sniff.
+From MV Require Import Spec.SpecV5.
+From MV Require Import Proofs.CodecV5Fields.
+From MV Require Import Proofs.CodecV5Size.
+From MV Require Import Proofs.CodecV5Limit.
+From MV Require Import Proofs.CodecV5Props.
+From MV Require Import Proofs.CodecV5Round.
+From MV Require Import Proofs.CodecV5DecBase.
+From MV Require Import Proofs.CodecV5Stream.
+From MV Require Import Proofs.CodecV5Round2.
+From MV Require Import Proofs.CodecV5RT.
+From MV Require Import Proofs.CodecV5Order.
+From MV Require Import Proofs.CodecV5Layout.
+From MV Require Import Proofs.CodecV5Succ.
+From MV Require Import Proofs.CodecV5Total.
+From MV Require Import Proofs.SniffProofs.
 From Coq Require Import String.
-From MV Require Import Base.Prelude Base.Res Base.VarInt Proofs.VarIntProofs.
-From MV Require Import Gen.Consts Spec.SpecConsts Proofs.ConstsProofs Proofs.ModelConsts.
+
+(* v3: every packet value in the encoder's domain (all 13 non-publish kinds, any lists and strings) encodes, and decoding the bytes (followed by anything) returns the same value, consuming exactly the bytes produced *)
+Theorem C01_v3_roundtrip_packet :
+  forall (mc : N) (p : CodecV3.packet),
+         CodecV3.packet_ok p = true ->
+         packet_fits p = true ->
+         packet_rt_ok p = true ->
+         get_encoded_size p <= VI_MAX ->
+         exists bs : bytes,
+           CodecV3.encodev 0 None (CodecV3.EPacket p) [] = (bs, None, Ok tt) /\
+           (forall r : list N,
+            CodecV3.decode_step 0 mc CodecV3.FrameHeader (bs ++ r) =
+            (Ok (Some (IPacket p (get_encoded_size p))), CodecV3.FrameHeader, r)).
+Proof. exact CodecV3RT.v3_roundtrip_packet. Qed.
+Print Assumptions C01_v3_roundtrip_packet.
+
+(* v3 PUBLISH with any payload *)
+Theorem C01_v3_roundtrip_publish :
+  forall (mc : N) (p : CodecV3.publish) (payload : bytes),
+         CodecV3.publish_ok p = true ->
+         publish_fits p = true ->
+         CodecV3.p_payload_size p = len payload ->
+         get_encoded_publish_size p <= VI_MAX ->
+         exists bs : bytes,
+           CodecV3.encodev 0 None (CodecV3.EPublish p (Some payload)) [] = (bs, None, Ok tt) /\
+           (forall r : list N,
+            mc = 0 \/ len (payload ++ r) <= U32MAX ->
+            CodecV3.decode_step 0 mc CodecV3.FrameHeader (bs ++ r) =
+            (Ok (Some (IPublish p payload (get_encoded_publish_size p))), CodecV3.FrameHeader, r)).
+Proof. exact CodecV3RT.v3_roundtrip_publish. Qed.
+Print Assumptions C01_v3_roundtrip_publish.
+
+(* the domain conditions are necessary: values the encoder refuses / the decoder refuses *)
+Theorem C01_v3_roundtrip_packet_refuted_long_string :
+  exists p : CodecV3.packet,
+           CodecV3.packet_ok p = true /\
+           get_encoded_size p <= VI_MAX /\
+           CodecV3.encodev 0 None (CodecV3.EPacket p) [] = ([], None, Err EE_InvalidLength).
+Proof. exact CodecV3RT.v3_roundtrip_packet_refuted_long_string. Qed.
+Print Assumptions C01_v3_roundtrip_packet_refuted_long_string.
+
+Theorem C01_v3_roundtrip_packet_refuted_client_id :
+  exists (p : CodecV3.packet) (bs : bytes),
+           CodecV3.packet_ok p = true /\
+           packet_fits p = true /\
+           CodecV3.encodev 0 None (CodecV3.EPacket p) [] = (bs, None, Ok tt) /\
+           CodecV3.decode_step 0 0 CodecV3.FrameHeader bs =
+           (Err DE_InvalidClientId, CodecV3.Frame CONNECT 12, []).
+Proof. exact CodecV3RT.v3_roundtrip_packet_refuted_client_id. Qed.
+Print Assumptions C01_v3_roundtrip_packet_refuted_client_id.
+
+Theorem C01_v3_roundtrip_publish_refuted :
+  (exists p : CodecV3.publish,
+            CodecV3.publish_ok p = true /\
+            get_encoded_publish_size p <= VI_MAX /\
+            CodecV3.encodev 0 None (CodecV3.EPublish p (Some [])) [] = ([], None, Err EE_MalformedPacket)) /\
+         (exists p : CodecV3.publish,
+            CodecV3.publish_ok p = true /\
+            get_encoded_publish_size p <= VI_MAX /\
+            CodecV3.encodev 0 None (CodecV3.EPublish p (Some [])) [] = ([], None, Err EE_PacketIdRequired)).
+Proof. exact CodecV3RT.v3_roundtrip_publish_refuted. Qed.
+Print Assumptions C01_v3_roundtrip_publish_refuted.
+
+(* v3: the bytes are the layout the OASIS specification defines: an independent spec decoder (Spec/SpecV3.v) recovers exactly the same field values *)
+Theorem C01_v3_layout_packet :
+  forall (p : CodecV3.packet) (bs : bytes),
+         CodecV3.packet_ok p = true ->
+         CodecV3.encodev 0 None (CodecV3.EPacket p) [] = (bs, None, Ok tt) ->
+         spec_decode3 bs = Some (SpecV3.to_spec p, []).
+Proof. exact CodecV3Layout.v3_layout_packet. Qed.
+Print Assumptions C01_v3_layout_packet.
+
+Theorem C01_v3_layout_publish :
+  forall (p : CodecV3.publish) (payload bs : bytes),
+         CodecV3.publish_ok p = true ->
+         CodecV3.p_payload_size p = len payload ->
+         CodecV3.encodev 0 None (CodecV3.EPublish p (Some payload)) [] = (bs, None, Ok tt) ->
+         spec_decode3 bs = Some (SpecV3.to_spec_publish p payload, []).
+Proof. exact CodecV3Layout.v3_layout_publish. Qed.
+Print Assumptions C01_v3_layout_publish.
+
+(* v5: every packet kind (all 15), every optional field and property, every reason code *)
+Theorem C01_v5_roundtrip :
+  forall (c : ecodec) (mi mc : N) (npi : bool) (p : packet),
+         ec_max_out_size c = 0 -> ec_no_problem_info c = false -> packet_ok p -> rt_statement c mi mc npi p.
+Proof. exact CodecV5RT.v5_roundtrip. Qed.
+Print Assumptions C01_v5_roundtrip.
+
+(* v5 PUBLISH with inline buffer and remaining payload *)
+Theorem C01_v5_roundtrip_publish :
+  forall (c : ecodec) (p : publish) (buf : option bytes) (w : bytes) (c' : ecodec) 
+           (more r : list N) (mi mc : N) (npi : bool),
+         publish_ok p = true ->
+         encodev c (EPublish p buf) = (w, Ok tt, c') ->
+         len (inline_payload buf ++ more) = p_payload_size p ->
+         let sz := publish_encoded_size p (max_size_of c) in
+         mi = 0 \/ sz <= mi ->
+         decode_step mi mc npi FrameHeader (w ++ more ++ r) =
+         (Ok (Some (DPublish p (inline_payload buf ++ more) sz)), FrameHeader, npi, r).
+Proof. exact CodecV5RT.v5_roundtrip_publish. Qed.
+Print Assumptions C01_v5_roundtrip_publish.
+
+(* v5: in-domain packets DO encode (no vacuity) and come back *)
+Theorem C01_v5_roundtrip_total :
+  forall (c : ecodec) (mi mc : N) (npi : bool) (p : packet) (r : list N),
+         ec_max_out_size c = 0 ->
+         ec_max_out_frame c = 0 ->
+         ec_no_problem_info c = false ->
+         ec_encoding_payload c = None ->
+         packet_ok p ->
+         let sz := packet_encoded_size p MAX_PACKET_SIZE in
+         sz <= MAX_PACKET_SIZE ->
+         mi = 0 \/ sz <= mi ->
+         exists w : bytes,
+           encodev c (EPacket p) = (w, Ok tt, c) /\
+           decode_step mi mc npi FrameHeader (w ++ r) =
+           (Ok (Some (DPacket p sz)), FrameHeader, npi_after p npi, r).
+Proof. exact CodecV5Total.v5_roundtrip_total. Qed.
+Print Assumptions C01_v5_roundtrip_total.
+
+Theorem C01_v5_encode_succeeds :
+  forall (c : ecodec) (p : packet),
+         ec_encoding_payload c = None ->
+         enc_ok p = true ->
+         let q := effective c p in
+         let sz := packet_encoded_size q (max_size_of c) in
+         sz <= max_size_of c ->
+         check_frame_size c sz = Ok tt -> exists w : bytes, encodev c (EPacket p) = (w, Ok tt, c).
+Proof. exact CodecV5Succ.v5_encode_succeeds. Qed.
+Print Assumptions C01_v5_encode_succeeds.
+
+(* v5: an independent table-driven OASIS decoder (Spec/SpecV5.v) recovers the same field values *)
+Theorem C01_v5_layout :
+  forall (c : ecodec) (p : packet) (w : bytes) (c' : ecodec) (r : list N),
+         ec_no_problem_info c = false ->
+         packet_dom p (max_size_of c) ->
+         spec_legal (to_spec p) = true ->
+         encodev c (EPacket p) = (w, Ok tt, c') -> spec_decode5 (w ++ r) = Some (to_spec p, r).
+Proof. exact CodecV5Layout.v5_layout. Qed.
+Print Assumptions C01_v5_layout.
+
+Theorem C01_v5_layout_publish :
+  forall (c : ecodec) (p : publish) (buf : option bytes) (w : bytes) (c' : ecodec) (more r : list N),
+         publish_ok p = true ->
+         encodev c (EPublish p buf) = (w, Ok tt, c') ->
+         len (inline_payload buf ++ more) = p_payload_size p ->
+         spec_legal (to_spec_publish p (inline_payload buf ++ more)) = true ->
+         spec_decode5 (w ++ more ++ r) = Some (to_spec_publish p (inline_payload buf ++ more), r).
+Proof. exact CodecV5Layout.v5_layout_publish. Qed.
+Print Assumptions C01_v5_layout_publish.
+
+(* v5: properties in any legal order decode to the same field values *)
+Theorem C01_v5_any_order :
+  forall (tbl : ptable) (its1 its2 : pbag),
+         items_wf tbl [] its1 = true ->
+         same_per_id its1 its2 ->
+         props_of tbl (enc_items tbl its1) = Ok its1 /\
+         props_of tbl (enc_items tbl its2) = Ok its2 /\
+         (forall id : N,
+          bag_n id its1 = bag_n id its2 /\
+          bag_b id its1 = bag_b id its2 /\
+          bag_bool id its1 = bag_bool id its2 /\
+          bag_ns id its1 = bag_ns id its2 /\ bag_pairs id its1 = bag_pairs id its2).
+Proof. exact CodecV5Order.v5_any_order. Qed.
+Print Assumptions C01_v5_any_order.
 
 (* all 2^28 variable-byte-integer values round-trip, consuming exactly the bytes produced *)
 Theorem C01_varint_roundtrip : forall n b r, enc_vi n = Some b -> dec_vi (b ++ r) = Ok (n, r).
@@ -58,3 +260,4 @@ Print Assumptions C01_scalars_are_spec.
 (* the hand-written codec models use exactly the translated constants *)
 Definition C01_model_v3_constants := model_v3_constants_are_the_source_constants.
 Definition C01_model_v5_constants := model_v5_constants_are_the_source_constants.
+
